@@ -44,7 +44,8 @@ func (valdec arrayDecoder) Decode(dec *Decoder, p interface{}, tag byte) {
 			n = count
 		}
 		et := valdec.et.Type1()
-		for i := 0; i < n; i++ {
+		// every loop over a count from the wire stops at the first error
+		for i := 0; i < n && dec.Error == nil; i++ {
 			valdec.decodeElem(dec, et, valdec.at.UnsafeGetIndex(array, i))
 		}
 		switch {
@@ -54,7 +55,7 @@ func (valdec arrayDecoder) Decode(dec *Decoder, p interface{}, tag byte) {
 			}
 		case n < count:
 			temp := valdec.et.UnsafeNew()
-			for i := n; i < count; i++ {
+			for i := n; i < count && dec.Error == nil; i++ {
 				valdec.decodeElem(dec, et, temp)
 			}
 		}
